@@ -429,6 +429,8 @@ impl GraphWorld {
                 let own_token_ = own_token.clone();
                 let self_unsub = self.prog.alpha.handler_self_unsub;
                 let weak_state = self.state.weak();
+                // a handler may own a Var handle (it is not an observer)
+                let write_to: Option<Var<Val>> = self.prog.alpha.handler_sets_var.and_then(|i| self.vars.get(i as usize).cloned().flatten());
                 let r = h.try_subscribe(move |u: Update<&Val>| {
                     IN_HANDLER.with(|c| c.set(Some(idx)));
                     enter();
@@ -438,6 +440,9 @@ impl GraphWorld {
                         Update::Invalidated => Upd::Invalidated,
                     };
                     let is_changed = matches!(update, Upd::Changed(_));
+                    if let (Some(var), Upd::Init(x) | Upd::Changed(x)) = (&write_to, &update) {
+                        var.set(Val::I((x.num() + 1).rem_euclid(3)));
+                    }
                     log(Ev::Handler { sub: idx, update });
                     if self_unsub && is_changed {
                         if let Some(t) = own_token_.get() {
@@ -929,6 +934,9 @@ impl GraphWorld {
                                 if got != Ok(r1.clone()) && self.cfg.is_armed("C01") {
                                     vs.push(v("C01", "C01.value", n.kind.name(), format!("observer slot {s} on {:?} ({}) returned {got:?} after stabilise; evaluating its expression from scratch gives {r1:?}", o.key, n.kind.name())));
                                 }
+                                if got != Ok(r1.clone()) && self.cfg.is_armed("C07") {
+                                    vs.push(v("C07", "C07.snapshot", n.kind.name(), format!("at the end of stabilise observer slot {s} on {:?} shows {got:?}, which is not its value ({r1:?}) under the variable assignment that was current when stabilise was called", o.key)));
+                                }
                                 continue;
                             }
                         } else if got != exp && self.cfg.is_armed("C06") {
@@ -1221,6 +1229,17 @@ impl World for GraphWorld {
             }
         }
         self.probe(round.is_some(), check, &mut vs);
+        // Writes issued by update handlers take effect on the variable at once but, like any
+        // write, reach the graph at the next stabilise: the observers just probed are judged on
+        // the assignment that was current when stabilise was called (C07), the model's
+        // variables move only now.
+        if let (Some(out), Some(var)) = (&round, self.prog.alpha.handler_sets_var) {
+            for (_s, u) in out.notes.iter() {
+                if let Upd::Init(x) | Upd::Changed(x) = u {
+                    self.model.set_var(var, (x.num() + 1).rem_euclid(3));
+                }
+            }
+        }
         if check {
             if self.cfg.is_armed("C11") {
                 for f in self.state.verif_audit() {
@@ -1232,7 +1251,8 @@ impl World for GraphWorld {
                         self.note("audit_diagnostics");
                     }
                 }
-                if round.is_some() && !self.state.is_stable() {
+                let handler_wrote = self.prog.alpha.handler_sets_var.is_some() && log.iter().any(|e| matches!(e, Ev::Handler { .. }));
+                if round.is_some() && !handler_wrote && !self.state.is_stable() {
                     vs.push(v("C11", "C11.not_stable_after_stabilise", "", "is_stable() is false right after a stabilise in which no user function wrote a variable".to_string()));
                 }
             }
